@@ -131,7 +131,7 @@ package registry
 //@   ensures{C10,C11} wf: wfK(r)
 //@   ensures result-has-pkg: imprt != nil ==> imprt.pkg != nil
 //@   -- C11 (qualifiers unique): a new package whose first qualifier (source alias or package name) is already some import's qualifier goes through conflict resolution
-//@   ensures{C11} conflict-is-resolved: canon(pkg) != r.moqPkgPath && !old(dom(r.imports, canon(pkg))) && exists(string(k), old(dom(r.imports, k)) && old(qual(r.imports[k])) == newQual(r, pkg)) ==> existsEv(i, evIs(i, "call:registry.Registry.resolveImportConflict") && evArg(i, 1) == imprt)
+//@   ensures{C11,C01,C20} conflict-is-resolved: canon(pkg) != r.moqPkgPath && !old(dom(r.imports, canon(pkg))) && exists(string(k), old(dom(r.imports, k)) && old(qual(r.imports[k])) == newQual(r, pkg)) ==> existsEv(i, evIs(i, "call:registry.Registry.resolveImportConflict") && evArg(i, 1) == imprt)
 //@   ensures{C11,C15,C16} alias-kept-without-conflict: canon(pkg) != r.moqPkgPath && !old(dom(r.imports, canon(pkg))) && forall(string(k), old(dom(r.imports, k)) ==> old(qual(r.imports[k])) != newQual(r, pkg)) ==> imprt.Alias == r.aliases[canon(pkg)] && forall((*Package)(p), old(allocated(p)) ==> p.Alias == old(p.Alias))
 
 //@ func registry.Registry.resolveImportConflict
@@ -178,6 +178,12 @@ package registry
 //@ define varsNonNil(m) = forall(k, 0 <= k && k < len(m.vars) ==> m.vars[k] != nil)
 //@ define entriesHavePkg(imports) = forall(string(k), dom(imports, k) && imports[k] != nil ==> imports[k].pkg != nil)
 
+//@ func registry.Registry.MethodScope -> ms
+//@   props C12 C13
+//@   safety C19
+//@   requires r != nil
+//@   ensures{C12,C13} fresh-empty-scope: ms != nil && fresh(ms) && ms.registry == r && ms.moqPkgPath == r.moqPkgPath && len(ms.vars) == 0 && ms.conflicted != nil && fresh(ms.conflicted) && forall(string(k), !ms.conflicted[k])
+
 //@ func registry.MethodScope.AddVar -> v
 //@   props C12
 //@   safety C19
@@ -192,7 +198,7 @@ package registry
 //@   ensures{C10,C11} variable-imports-are-registry-entries: entriesHavePkg(v.imports)
 //@   ensures{C12} import-conflicts-resolved-on-every-path: existsEv(i, evIs(i, "call:registry.MethodScope.resolveImportVarConflicts") && evArg(i, 1) == v.imports)
 //@   ensures{C12} new-name-unique: forall(k, 0 <= k && k < len(m.vars) - 1 ==> m.vars[k].Name != v.Name)
-//@   ensures{C13} name-kept-unless-conflict: forallEv(i, evIs(i, "call:registry.varName") ==> evArg(i, 0) == vr && evArg(i, 1) == suffix && (v.Name == evRes(i)
+//@   ensures{C13,C15} name-kept-unless-conflict: forallEv(i, evIs(i, "call:registry.varName") ==> evArg(i, 0) == vr && evArg(i, 1) == suffix && (v.Name == evRes(i)
 //@       || existsEv(q, evIs(q, "call:registry.Registry.searchImport") && evArg(q, 1) == evRes(i) && evRes(q, 1))
 //@       || existsEv(j, evIs(j, "call:registry.MethodScope.resolveVarNameConflict"))))
 //@   ensures{C12} import-clash-renamed: forallEv(i, q, evIs(i, "call:registry.varName") && evIs(q, "call:registry.Registry.searchImport") && evRes(q, 1) && !existsEv(j, evIs(j, "call:registry.MethodScope.resolveVarNameConflict")) ==> v.Name == evRes(i) + "MoqParam")
